@@ -251,6 +251,13 @@ def refusal_run(role, variant, obs):
         queue = [str(x) for x in peer.end.hdl.send_bundle_get_queue()]
         if queue:
             problems.append(('send-queue', 'send queue still lists %s after both transfers finished' % queue))
+        elif len(fins) == 2 and not peer.end_sock.rx.used():
+            # everything has drained: one transfer refused, the other acknowledged to its end, nothing received is waiting
+            idle = peer.end.call('is_sess_idle')
+            obs['idle_checked'] = obs.get('idle_checked', 0) + 1
+            if not bool(idle):
+                problems.append(('idle', 'is_sess_idle() is %r after every transfer finished (%s) and the send queue is empty' % (
+                    bool(idle), dict((tid, res[0]) for (tid, res) in fins.items()))))
     return problems
 
 
